@@ -1,21 +1,23 @@
 import sys
 import typing
 from itertools import chain
+from types import SimpleNamespace
 from typing import Any, ForwardRef, TypeVar
 
 from ..common import TypeHint, VarTuple
 from ..feature_requirement import HAS_PARAM_SPEC, HAS_TV_DEFAULT, HAS_TV_TUPLE
-from .basic_utils import create_union, eval_forward_ref, is_user_defined_generic, strip_alias
+from .basic_utils import create_union, is_user_defined_generic, strip_alias
 from .constants import BUILTIN_ORIGIN_TO_TYPEVARS
+from .fundamentals import get_all_type_hints
 
 
 class ImplicitParamsGetter:
     def _process_limit_element(self, type_var: TypeVar, tp: TypeHint) -> TypeHint:
         if isinstance(tp, str):  # python 3.12+ keeps constraints written as strings without wrapping
             tp = ForwardRef(tp)
-        if isinstance(tp, ForwardRef):
-            return eval_forward_ref(vars(sys.modules[type_var.__module__]), tp)
-        return tp
+        # forward references can be nested inside of hint, e.g. ``Optional["Model"]``
+        holder = SimpleNamespace(__annotations__={"limit": tp})
+        return get_all_type_hints(holder, vars(sys.modules[type_var.__module__]))["limit"]
 
     def _derive_default(self, type_var) -> TypeHint:
         if HAS_PARAM_SPEC and isinstance(type_var, typing.ParamSpec):
